@@ -645,3 +645,43 @@ pub fn binding_freeform<S: Src>(s: &mut S) {
     pv_check!(s, matches!(n.case_mapping_rule("A"), Ok(ref r) if str_eq::<2>(r, "a")), "PV: Nickname case mapping lowercases");
     pv_cover!(s, true, "COVER: reached");
 }
+
+/// Constant multi-character witnesses for the Freeform profiles (interactions one symbolic character cannot show):
+/// space collapsing/trimming around multi-byte characters, NFC/NFKC after space mapping, compatibility characters that
+/// must survive (OpaqueString) or be folded (Nickname), re-validation in a later round.  Real stabilize loop (constants).
+pub fn freeform_witnesses<const NICK: bool, const K: usize, S: Src>(s: &mut S) {
+    const WN: [&str; 6] = [
+        "a\u{3000}\u{a0}e",   // two different non-ASCII spaces collapse to one
+        " e\u{301}",          // leading space, then composition
+        "\u{b4}a",            // NFKC gives a leading space: second round
+        "\u{3131}a",          // NFKC gives a DISALLOWED jamo: second round must reject
+        "A\u{ff21}",          // compatibility character folded by NFKC
+        "\u{2163}\u{a0}",     // expansion to two letters, trailing space
+    ];
+    const WO: [&str; 6] = [
+        "a\u{3000}\u{a0}e",   // both mapped to U+0020, nothing collapsed
+        " e\u{301}",          // space kept, composition
+        "\u{b4}a",            // compatibility character survives
+        "\u{2126}\u{a0}",     // singleton + space mapping
+        "A\u{ff21}",          // fullwidth survives
+        "\u{1100}a",          // DISALLOWED: rejected with its position
+    ];
+    let input = if NICK { WN[K] } else { WO[K] };
+    pv_note!(s, "{} witness {:?}", if NICK { "Nickname" } else { "OpaqueString" }, input);
+    let a = arr_of_str::<8>(input);
+    let (got, exp) = if NICK {
+        (Nickname::new().enforce(input), nick_fixpoint(&a, false))
+    } else {
+        (OpaqueString::new().enforce(input), opaque_enforce_spec(&a))
+    };
+    match exp {
+        Some(exp) => {
+            pv_check!(s, same::<8>(&got, &exp), "PV: enforce on a multi-character witness = the specification (Freeform profiles)");
+        }
+        None => {
+            pv_check!(s, false, "MODEL: normalizer model capacity");
+        }
+    }
+    std::mem::forget(got);
+    pv_cover!(s, true, "COVER: reached");
+}
